@@ -401,6 +401,17 @@ def compareAndDelete (H : Hashes) (c : Cache V) (k : Nat) (old : V) : Cache V ×
     else (c, false)
   | none => (c, false)
 
+/-- `PositiveCache.Get` / `NegativeCache.Get` (middleware/cache): look the key up;
+an entry found expired is cleaned up with `CompareAndDelete(key, thatEntry)`
+and reported as a miss.  `expired` stands for `CacheEntry.IsExpired()`. -/
+def ansGet (H : Hashes) (expired : V → Bool) (c : Cache V) (k : Nat) : Cache V × Option V :=
+  match c.get H k with
+  | none => (c, none)
+  | some e => if expired e then ((c.compareAndDelete H k e).1, none) else (c, some e)
+
+/-- `PositiveCache.Set` / `NegativeCache.Set`: a plain `Add`, whatever the entry's lifetime. -/
+def ansSet (H : Hashes) (c : Cache V) (k : Nat) (e : V) : Cache V := c.add H k e
+
 end Cache
 
 /-- `ratelimit.LimiterStore`: a Go map `key → (limiter, lastSeen)` under one
